@@ -46,7 +46,7 @@ ASSUMPTIONS = [
     "setting one property may rewrite StitchNode (set_property writes a fresh sliver's dictionary); frame effects on "
     "other properties are not part of the statement and are not asserted",
 ]
-BUDGET = {"quick": 9000, "thorough": 200000}
+BUDGET = {"quick": 12000, "thorough": 250000}
 
 SIG_GATEWAY = "C02/absent-reads-as-empty-object/gateway"
 SIG_SUBIF = "C02/graph/interface/interfaces:lost"
@@ -199,8 +199,12 @@ def _run_sliver(case):
     for p in desc["props"]:         # harness self-check: every described property is really set on the built sliver
         if c_ids["props"][p] is None:
             raise RuntimeError(f"C02 harness: built sliver lacks described property {p}")
-    d0 = ABCPropertyGraph.sliver_to_dict(s)
-    shape0 = _dict_shape(d0)
+    try:
+        d0 = ABCPropertyGraph.sliver_to_dict(s)
+    except Exception as ex:         # the conversion under test must not fail on a valid sliver
+        d0 = None
+        v.append(("C02/dict/sliver_to_dict/raised", f"{key}: {type(ex).__name__}: {ex}"))
+    shape0 = _dict_shape(d0) if d0 is not None else {}
 
     def cls_at(path):
         return E.path_cls(path, key)
@@ -267,25 +271,27 @@ def _run_sliver(case):
                  "interface": ABCPropertyGraph.build_deep_interface_sliver_from_dict,
                  "link": ABCPropertyGraph.build_deep_link_sliver_from_dict}[key]
     rebuilt_dict = None
-    try:
-        rebuilt_dict = from_dict(props=d0)
-    except Exception as ex:
-        v.append((f"C02/dict/build_deep_{key}_sliver_from_dict/raised", f"{type(ex).__name__}: {ex}"))
+    if d0 is not None:
+        try:
+            rebuilt_dict = from_dict(props=d0)
+        except Exception as ex:
+            v.append((f"C02/dict/build_deep_{key}_sliver_from_dict/raised", f"{type(ex).__name__}: {ex}"))
     if rebuilt_dict is not None:
         record("dict", E.diff_canon(c_noid, E.canon_sliver(rebuilt_dict, with_ids=False)))
 
     # ---- clause 3: JSON path
     rebuilt_json = None
-    try:
-        js = JSONSliver.sliver_to_json(s)
-        if key == "node":
-            rebuilt_json = JSONSliver.node_sliver_from_json(js)
-        elif key == "service":
-            rebuilt_json = JSONSliver.network_service_sliver_from_json(js)
-        else:
-            rebuilt_json = from_dict(props=json.loads(js))
-    except Exception as ex:
-        v.append((f"C02/json/{key}/raised", f"{type(ex).__name__}: {ex}"))
+    if d0 is not None:              # (a failing sliver_to_dict is already reported above)
+        try:
+            js = JSONSliver.sliver_to_json(s)
+            if key == "node":
+                rebuilt_json = JSONSliver.node_sliver_from_json(js)
+            elif key == "service":
+                rebuilt_json = JSONSliver.network_service_sliver_from_json(js)
+            else:
+                rebuilt_json = from_dict(props=json.loads(js))
+        except Exception as ex:
+            v.append((f"C02/json/{key}/raised", f"{type(ex).__name__}: {ex}"))
     if rebuilt_json is not None:
         record("json", E.diff_canon(c_noid, E.canon_sliver(rebuilt_json, with_ids=False)))
 
